@@ -149,12 +149,18 @@ def _aggregate(ctx, pydrex, case):
     ctx.cls(f"minerals={origin}")
     scale = max(float(np.abs(S.olivine).max()), float(np.abs(S.enstatite).max()))
     tol = 1e-9 * scale
+    # argument forms: lists (documented), tuples, integer phase codes, NumPy fraction vectors
+    form = int(case["seed"]) % 4
+    a_min, a_ph, a_fr = ((minerals, list(phases), list(fracs)), (tuple(minerals), tuple(phases), tuple(fracs)),
+                         (minerals, [int(p_) for p_ in phases], np.array(fracs, dtype=float)),
+                         (minerals, list(phases), [np.float64(x) for x in fracs]))[form]
+    ctx.cls(f"argument_form={form}")
     try:
         if case["custom"]:
-            C = np.asarray(mn.voigt_averages(minerals, list(phases), list(fracs), S))
+            C = np.asarray(mn.voigt_averages(a_min, a_ph, a_fr, S))
         else:
             # default argument: the built-in tensors, whatever custom instances earlier calls were given
-            C = np.asarray(mn.voigt_averages(minerals, list(phases), list(fracs)))
+            C = np.asarray(mn.voigt_averages(a_min, a_ph, a_fr))
     except Exception as e:
         ctx.case(case, nontrivial=False)
         ctx.check("returns", False, case, key=f"raises/{type(e).__name__}", exc=str(e)[:200])
